@@ -4,6 +4,7 @@ import (
 	"bytes"
 	"encoding/base64"
 	"fmt"
+	"path/filepath"
 	"regexp"
 	"strings"
 	"testing"
@@ -44,6 +45,8 @@ func rawPayload(b []byte) C10Payload { return C10Payload{B: b} }
 
 func (p C10Payload) bytes(file string) []byte {
 	b := bytes.ReplaceAll(p.B, []byte("FILE"), []byte(file))
+	b = bytes.ReplaceAll(b, []byte("DIRN"), []byte(filepath.Dir(file)))
+	b = bytes.ReplaceAll(b, []byte("DIRB"), []byte(filepath.Base(filepath.Dir(file))))
 	if p.Env {
 		return []byte("protocol 4.1 base64 " + base64.StdEncoding.EncodeToString(b) + ";")
 	}
@@ -54,7 +57,7 @@ var c10Words = []string{"cat", "grep", "tail", "map", ".ack", "health", "timeout
 var c10Opts = []string{"", "", ":quiet=true", ":plain=true:quiet=true", ":k", ":k=", ":=v", ":=", ":base64%!!!", ":x=base64%", ":x=base64%QUJD", ":max=99999999999999999999",
 	":before=-5:after=x", ":max=1", ":before=3:after=3:max=2", ":serverless=true", ":before=70000", ":before=4611686018427387904", ":before=2000000:max=1", ":max=-1", ":after=9223372036854775807", ":quiet", ":::", ":a=b=c"}
 var c10Args = []string{"", "x", "FILE", "FILE", "/nonexistent", "/", "/etc", "regex:noop", "regex:default", "regex:invert x", "regex:default [", "regex:default (((", "regex:bogus y",
-	"regex", "regex:", "regex:default,invert,noop z", "close", "connection", "close connection", "5", "-1", "*", "../../..", "\x00", "é", "%s%s%s%n", "regex:default \\", "regex:invert (?P<"}
+	"regex", "regex:", "regex:default,invert,noop z", "DIRN//*.log", "DIRN/./att*", "DIRN/../DIRB/*.log", "DIRN//attack.log", "DIRN/x/../*", "DIRN/*.log", "DIRN/*/../*.log", "close", "connection", "close connection", "5", "-1", "*", "../../..", "\x00", "é", "%s%s%s%n", "regex:default \\", "regex:invert (?P<"}
 var c10Queries = []string{"", "select", "select x", "select count(x) from", "select `", "select ``", "select ` x", "select count($line) from STATS group by",
 	"select x interval x", "select x limit y", "select x limit", "from", "from STATS", "select sum(", "select sum(x", "select sum)x(", "select x where", "select x where a",
 	"select x where a ==", "select x where a == b c", "select x where \"a\" == 3", "select x where a eq", "select x where a frob b", "select x set", "select x set $a", "select x set $a =",
